@@ -120,9 +120,20 @@ class Run:
                     f"instance floor missed for {prefix}: {have} < {n} "
                     f"(anchors moved or idiom no longer recognised; the rule would pass vacuously)"
                 )
+        # a clause whose subject construct is not found in the shape it knows (function split, helper extracted, closure turned
+        # into a method ...) decides nothing on this tree: it is listed as UNDECIDED (stdout + evidence) and the other clauses
+        # stand.  The analysis as a whole is broken (exit 2) when a rule family misses its floor (above), when an instance is
+        # marked fatal, or when more clauses lost their subject than a local refactor explains.
         undet = [i for i in insts if i.status == UNDET]
+        undecided = []
         for i in undet:
-            self.error(f"undetermined instance {i.key}: {i.why} [{i.where}]")
+            if i.detail.get("fatal"):
+                self.error(f"undetermined instance {i.key}: {i.why} [{i.where}]")
+            else:
+                undecided.append(i)
+        n_checked = sum(1 for i in insts if i.status in (OK, BAD))
+        if len(undecided) > max(8, n_checked // 10):
+            self.error(f"{len(undecided)} clauses lost their subject construct (more than a local refactor explains): " + "; ".join(i.key for i in undecided[:6]))
 
         bad = [i for i in insts if i.status == BAD]
         known_hits = []
@@ -152,6 +163,8 @@ class Run:
             lines.append(f"  {i.why}")
             for p in i.path[:12]:
                 lines.append(f"    path: {p}")
+        for i in undecided:
+            lines.append(f"UNDECIDED property={self.prop} {i.key}: {i.why} [{i.where}]")
         for e in self.errors:
             lines.append(f"ANALYSIS-ERROR property={self.prop} {e}")
 
@@ -189,6 +202,7 @@ class Run:
             "samples": samples or [{"note": "no instances"}],
             "per_rule": per_rule,
             "known_findings": [h[0].key for h in known_hits],
+            "undecided": [{"instance": i.key, "why": i.why, "where": i.where} for i in undecided],
             "info": [i.as_dict() for i in insts if i.status == INFO][:40],
             "notes": self.notes,
             "exhaustive": False,
@@ -217,7 +231,7 @@ class Run:
             print(ln)
         print(
             f"[{self.prop}] tier={self.tier} instances={len(checked)} ok={cov['discharged']} "
-            f"violations={len(violations)} known={len(known_hits)} errors={len(self.errors)} "
+            f"violations={len(violations)} known={len(known_hits)} undecided={len(undecided)} errors={len(self.errors)} "
             f"wall={ev['wall_s']}s"
         )
         sys.stdout.flush()
